@@ -460,10 +460,10 @@ class PeaksKind(Kind):
         nmax = 7 if tier == 'quick' else 9
         for sig in _signals([0, 2, 4], nmax):
             n = len(sig)
-            hs = heights3 if n <= 5 else ['-inf', 2, 3, 4, '+inf'] if n <= 6 else ['-inf', 2, 3, 4]   # 1 ~ 2 and 5 ~ +inf select the same samples
+            hs = heights3 if n <= 5 else ['-inf', 2, 3, 4, '+inf'] if n <= 7 else ['-inf', 2, 3, 4]   # 1 ~ 2 and 5 ~ +inf select the same samples
             yield self._grid_case(sig, 2, 'float64' if n % 2 else 'float32', hs, n + 2)
         # 4-value alphabet, sampled
-        n4 = 1200 if tier == 'quick' else 60000
+        n4 = 2500 if tier == 'quick' else 60000
         for _ in range(n4):
             n = rng.randint(4, nmax + 1)
             sig = [rng.choice([0, 1, 2, 3]) for _ in range(n)]
@@ -597,7 +597,7 @@ class WidthKind(Kind):
         for sig in _signals([0, 2, 4], nmax):
             n = len(sig)
             thrs = thr3 if n <= 5 else thr3[1:-1]
-            modes = _modes(rng, n, 2, boundary=4) if n <= 5 else _modes(rng, n, 2, boundary=2) if n <= 6 else _modes(rng, n, 2, boundary=1)
+            modes = _modes(rng, n, 2, boundary=4) if n <= 5 else _modes(rng, n, 2, boundary=2) if n <= 7 else _modes(rng, n, 2, boundary=1)
             yield {'data': sig, 'den': 2, 'dtype': 'float64' if n % 2 else 'int16x', 'grid': {'thrs': thrs, 'modes': modes},
                    'queries': [[dr, t, m] for dr in ('positive', 'negative') for t in thrs for m in modes]}
         nl = 300 if tier == 'quick' else 6000
@@ -700,5 +700,25 @@ class WidthKind(Kind):
             for i in range(len(data)):
                 yield dict(case, data=data[:i] + data[i + 1:], grid=None)
 
+
+def _spread(gen):
+    """Interleave the (costly) long random signals with the short exhaustive ones so that the Coq shards are balanced."""
+    def wrapped(self, rng, tier):
+        cases = list(gen(self, rng, tier))
+        long_ = [c for c in cases if len(c['data']) > 9]
+        short = [c for c in cases if len(c['data']) <= 9]
+        step = max(1, len(short) // (len(long_) + 1))
+        out, k = [], 0
+        for i, c in enumerate(short):
+            out.append(c)
+            if (i + 1) % step == 0 and k < len(long_):
+                out.append(long_[k])
+                k += 1
+        return out + long_[k:]
+    return wrapped
+
+
+PeaksKind.gen = _spread(PeaksKind.gen)
+WidthKind.gen = _spread(WidthKind.gen)
 
 KINDS = [MovingKind(), PatternKind(), PadKind(), ExtractKind(), PeaksKind(), WidthKind()]
